@@ -803,3 +803,283 @@ Definition dtt_disj (s : schema) (st : list (string * object)) (t : ty) : res (t
   end.
 Definition disjunction_to_type (ss : schemas) : res schemas :=
   mapM (fun s => visit_schema_st [] (visit_disj (dtt_disj s)) (map snd) s) ss.
+
+(* ---------- dataquery_identification.go ---------- *)
+Definition dqi_object (common : object) (o : object) : res (object * bool) :=
+  match o_type o with
+  | TStruct a dh fs =>
+      if alist_has (hints a) "implements_variant" then Ok (o, true) else
+      match o_type common with
+      | TStruct _ _ bfs =>
+          if forallb (fun bf => has_field fs (f_name bf)) bfs
+          then Ok (set_otype o (TStruct (mk_attrs (nullable a) (dflt a) (alist_set (hints a) "implements_variant" (DStr "dataquery"))) dh fs), true)
+          else Ok (o, false)
+      | _ => Panic "invalid memory address or nil pointer dereference"
+      end
+  | _ => Ok (o, false)
+  end.
+Definition dqi_schema (common : object) (s : schema) : res schema :=
+  do r <- (fix go (l : list (string * object)) (acc : list (string * object)) (vs : list string)
+             : res (list (string * object) * list string) :=
+             match l with
+             | [] => Ok (acc, vs)
+             | (k, o) :: rest =>
+                 if seqb (self_str o) (self_str common) then go rest (objs_set acc k o) vs else
+                 do x <- dqi_object common o ;
+                 go rest (objs_set acc k (fst x)) (if snd x then vs ++ [o_name (fst x)] else vs)
+             end) (s_objects s) [] [] ;
+  let '(objs, vs) := r in
+  let meta := match vs with
+              | [] => s_meta s
+              | _ => {| m_kind := "composable" ; m_variant := "dataquery" ; m_identifier := m_identifier (s_meta s) |}
+              end in
+  match s_entry s, vs with
+  | EmptyString, [v] =>
+      let et := match objs_get objs v with
+                | Some o => TRef A0 (o_selfpkg o) (o_selfname o)
+                | None => TRef A0 "" ""
+                end in
+      Ok (mkSchema (s_pkg s) meta v et objs)
+  | _, _ => Ok (mkSchema (s_pkg s) meta (s_entry s) (s_entrytype s) objs)
+  end.
+Definition dataquery_identification (ss : schemas) : res schemas :=
+  match locate_object ss "common" "DataQuery" with
+  | None => Ok ss
+  | Some common => mapM (dqi_schema common) ss
+  end.
+
+(* ---------- inline_objects_with_types.go ----------
+   objectsToInline maps "pkg.name" to the Type value ResolveToType returned in the first phase.
+   That value shares its payload pointers with the top-level type of the object the chain of
+   references ends at (its ORIGIN), and the visitor rewrites payloads in place: what a
+   reference is replaced with is the origin's type AS REWRITTEN SO FAR (fully, if the origin
+   was visited before; partially, if the origin is the object being visited; not at all if it
+   comes later).  The inlined copy is not visited again.  The model keeps the in-place view of
+   every schema (`cur`) and, while an object is being visited, the context that rebuilds its
+   partially rewritten type. *)
+Definition origin := (nat * string)%type.     (* schema index, object key *)
+Fixpoint locate_idx (ss : schemas) (pkg : string) (i : nat) : option (nat * schema) :=
+  match ss with
+  | [] => None
+  | s :: r => if seqb (s_pkg s) pkg then Some (i, s) else locate_idx r pkg (S i)
+  end.
+(* ResolveToType, also returning the object whose top-level type the result is *)
+Fixpoint resolve_origin (fuel : nat) (ss : schemas) (og : origin) (t : ty) : res (ty * origin) :=
+  match t with
+  | TRef _ p n =>
+      match fuel with
+      | O => OutOfFuel
+      | S f =>
+          match locate_idx ss p 0 with
+          | None => Ok (t, og)
+          | Some (i, s) =>
+              match objs_get (s_objects s) n with
+              | None => Ok (t, og)
+              | Some o => resolve_origin f ss (i, n) (o_type o)
+              end
+          end
+      end
+  | _ => Ok (t, og)
+  end.
+Definition iowt_collect (kinds : list string) (ss : schemas) : res (list (string * origin)) :=
+  (fix gos (i : nat) (l : list schema) (acc : list (string * origin)) : res (list (string * origin)) :=
+     match l with
+     | [] => Ok acc
+     | s :: rest =>
+         do acc' <- (fix goo (l : list (string * object)) (acc : list (string * origin)) : res (list (string * origin)) :=
+                       match l with
+                       | [] => Ok acc
+                       | (k, o) :: r =>
+                           do x <- resolve_origin (S (count_objects ss)) ss (i, k) (o_type o) ;
+                           if existsb (seqb (kind_name (fst x))) kinds && negb (is_concrete_scalar (o_type o))
+                           then goo r (str_alist_set acc (self_str o) (snd x))
+                           else goo r acc
+                       end) (s_objects s) acc ;
+         gos (S i) rest acc'
+     end) 0 ss [].
+
+Section Inline.
+  (* lookup key partial-view-of-the-current-object *)
+  Variable lookup : string -> ty -> option ty.
+  Fixpoint iowt_ty (ctx : ty -> ty) (t : ty) : ty :=
+    match t with
+    | TArray a v => TArray a (iowt_ty (fun x => ctx (TArray a x)) v)
+    | TMap a i v => TMap a i (iowt_ty (fun x => ctx (TMap a i x)) v)
+    | TStruct a dh fs =>
+        TStruct a dh
+          ((fix go (done : list field) (l : list field) : list field :=
+              match l with
+              | [] => []
+              | f :: r =>
+                  let mk x := mkField (f_name f) (f_comments f) x (f_required f) in
+                  let f' := mk (iowt_ty (fun x => ctx (TStruct a dh (done ++ mk x :: r))) (f_type f)) in
+                  f' :: go (done ++ [f']) r
+              end) [] fs)
+    | TDisj a d =>
+        TDisj a (mkDisj
+          ((fix go (done : list ty) (l : list ty) : list ty :=
+              match l with
+              | [] => []
+              | b :: r =>
+                  let b' := iowt_ty (fun x => ctx (TDisj a (mkDisj (done ++ x :: r) (d_disc d) (d_mapping d)))) b in
+                  b' :: go (done ++ [b']) r
+              end) [] (d_branches d)) (d_disc d) (d_mapping d))
+    | TInter a bs =>
+        TInter a
+          ((fix go (done : list ty) (l : list ty) : list ty :=
+              match l with
+              | [] => []
+              | b :: r =>
+                  let b' := iowt_ty (fun x => ctx (TInter a (done ++ x :: r))) b in
+                  b' :: go (done ++ [b']) r
+              end) [] bs)
+    | TRef _ p n => match lookup (ref_str p n) (ctx t) with Some r => r | None => t end
+    | _ => t
+    end.
+End Inline.
+
+Definition view_type (cur : schemas) (og : origin) : option ty :=
+  match nth_error cur (fst og) with
+  | Some s => match objs_get (s_objects s) (snd og) with Some o => Some (o_type o) | None => None end
+  | None => None
+  end.
+Fixpoint set_nth {A} (l : list A) (i : nat) (x : A) : list A :=
+  match l, i with
+  | [], _ => []
+  | _ :: r, O => x :: r
+  | y :: r, S j => y :: set_nth r j x
+  end.
+Definition iowt_lookup (inl : list (string * origin)) (cur : schemas) (self : option origin) (key : string) (partial : ty)
+  : option ty :=
+  match alist_find inl key with
+  | None => None
+  | Some og =>
+      match self with
+      | Some me => if Nat.eqb (fst og) (fst me) && seqb (snd og) (snd me) then Some partial else view_type cur og
+      | None => view_type cur og
+      end
+  end.
+Definition iowt_visit (inl : list (string * origin)) (ss : schemas) : schemas :=
+  let '(out, _) :=
+      fold_left (fun (acc : schemas * (schemas * nat)) (s : schema) =>
+        let '(out, (cur, i)) := acc in
+        let et := iowt_ty (iowt_lookup inl cur None) (fun x => x) (s_entrytype s) in
+        let '(objs, cur') :=
+            fold_left (fun (st : list (string * object) * schemas) (ko : string * object) =>
+              let '(objs, cur) := st in
+              let '(k, o) := ko in
+              let t' := iowt_ty (iowt_lookup inl cur (Some (i, k))) (fun x => x) (o_type o) in
+              let cur' := if is_ref (o_type o) then cur else
+                          match nth_error cur i with
+                          | Some cs => set_nth cur i (set_objects cs (objs_set (s_objects cs) k (set_otype o t')))
+                          | None => cur
+                          end in
+              (add_object objs (set_otype o t'), cur'))
+              (s_objects s) ([], cur) in
+        (out ++ [mkSchema (s_pkg s) (s_meta s) (s_entry s) et objs], (cur', S i)))
+        ss ([], (ss, 0)) in
+  out.
+Definition inline_objects_with_types (kinds : list string) (ss : schemas) : res schemas :=
+  do inl <- iowt_collect kinds ss ;
+  Ok (map (fun s => set_objects s (filter (fun ko => negb (alist_has inl (self_str (snd ko)))) (s_objects s)))
+          (iowt_visit inl ss)).
+
+(* ---------- remove_intersections.go ----------
+   objectsToRemove / arraysToFix are keyed by object NAME only and live for the whole pass:
+   what one schema records is also applied to (and removed from) the schemas visited later.
+   An alias of a struct becomes a struct built with NewStruct(located.Fields...): it SHARES the
+   field slice of the located struct, and the second loop rewrites fields in place, once per
+   object holding the slice.  The model gives every struct object a slice identity. *)
+Definition ri_state := (list (string * object) * list (string * object))%type.  (* to remove, arrays to fix *)
+Definition ri_fields (st : ri_state) (fs : list field) : list field :=
+  map (fun f =>
+         match f_type f with
+         | TRef ra _ n =>
+             let f1 := match alist_find (fst st) n with
+                       | Some obj => mkField (f_name f) (o_comments obj) (TRef A0 (o_selfpkg obj) (o_selfname obj)) false
+                       | None => f
+                       end in
+             let f2 := match alist_find (snd st) n with
+                       | Some obj => mkField (f_name f) (o_comments obj)
+                                             (TArray A0 (match o_type obj with TArray _ v => v | _ => ty_zero end)) false
+                       | None => f1
+                       end in
+             mkField (f_name f2) (f_comments f2)
+                     (set_hints (f_type f2)
+                                (fold_left (fun acc kv => alist_set acc (fst kv) (snd kv)) (hints ra) (hints (ty_attrs (f_type f2)))))
+                     (f_required f2)
+         | _ => f
+         end) fs.
+Definition ri_entry := (string * (object * nat))%type.
+Fixpoint ri_get (l : list ri_entry) (k : string) : option (object * nat) :=
+  match l with [] => None | (k', v) :: r => if seqb k' k then Some v else ri_get r k end.
+Fixpoint ri_set (l : list ri_entry) (k : string) (v : object * nat) : list ri_entry :=
+  match l with
+  | [] => [(k, v)]
+  | (k', v') :: r => if seqb k' k then (k', v) :: r else (k', v') :: ri_set r k v
+  end.
+Fixpoint ri_number (l : list (string * object)) (i : nat) : list ri_entry :=
+  match l with [] => [] | (k, o) :: r => (k, (o, i)) :: ri_number r (S i) end.
+
+Definition ri_schema (st : ri_state) (s : schema) : res (schema * ri_state) :=
+  (* loop 1: objects that are references *)
+  do r1 <- (fix go (keys : list string) (objs : list ri_entry) (st : ri_state) : res (list ri_entry * ri_state) :=
+              match keys with
+              | [] => Ok (objs, st)
+              | k :: rest =>
+                  match ri_get objs k with
+                  | Some (o, _) =>
+                      match o_type o with
+                      | TRef ra _ n =>
+                          match ri_get objs n with
+                          | Some (lo, lid) =>
+                              match o_type lo with
+                              | TStruct la ldh lfs =>
+                                  do h0 <- (match alist_find (hints ra) "implements_variant" with
+                                            | None => Ok []
+                                            | Some (DStr v) => Ok [("implements_variant", DStr v)]
+                                            | Some _ => Panic "interface conversion: interface {} is not string"
+                                            end) ;
+                                  let h := fold_left (fun acc kv => alist_set acc (fst kv) (snd kv)) (hints la) h0 in
+                                  go rest (ri_set objs k (set_otype o (TStruct (mk_attrs false DNil h) ldh lfs), lid))
+                                     (str_alist_set (fst st) (o_name lo) o, snd st)
+                              | TArray _ _ =>
+                                  go rest objs (str_alist_set (fst st) (o_name o) o, str_alist_set (snd st) (o_name o) lo)
+                              | _ => go rest objs st
+                              end
+                          | None => go rest objs st
+                          end
+                      | _ => go rest objs st
+                      end
+                  | None => go rest objs st
+                  end
+              end) (map fst (s_objects s)) (ri_number (s_objects s) 0) st ;
+  let '(objs1, st1) := r1 in
+  (* loop 2: struct objects, through their (possibly shared) field slices *)
+  let heap0 : list (nat * list field) :=
+      fold_left (fun h e => match o_type (fst (snd e)) with
+                            | TStruct _ _ fs => if existsb (fun x => Nat.eqb (fst x) (snd (snd e))) h then h
+                                                else h ++ [(snd (snd e), fs)]
+                            | _ => h end) objs1 [] in
+  let heap :=
+      fold_left (fun h e => match o_type (fst (snd e)) with
+                            | TStruct _ _ _ =>
+                                map (fun x => if Nat.eqb (fst x) (snd (snd e)) then (fst x, ri_fields st1 (snd x)) else x) h
+                            | _ => h end) objs1 heap0 in
+  let objs2 :=
+      map (fun e => let o := fst (snd e) in
+                    match o_type o with
+                    | TStruct a dh fs =>
+                        let fs' := match find (fun x => Nat.eqb (fst x) (snd (snd e))) heap with
+                                   | Some x => snd x | None => fs end in
+                        (fst e, set_otype o (TStruct a dh fs'))
+                    | _ => (fst e, o)
+                    end) objs1 in
+  Ok (set_objects s (filter (fun ko => negb (alist_has (fst st1) (fst ko))) objs2), st1).
+Definition remove_intersections (ss : schemas) : res schemas :=
+  do r <- (fix go (l : list schema) (st : ri_state) : res (list schema) :=
+             match l with
+             | [] => Ok []
+             | s :: rest => do x <- ri_schema st s ; do rest' <- go rest (snd x) ; Ok (fst x :: rest')
+             end) ss ([], []) ;
+  Ok r.
